@@ -184,10 +184,11 @@ Lemma wf_keyed_keys D : Forall key_ok D ->
   map c_key (filter keyed (dvalues D)) = dk_strs (dkeys D).
 Proof.
   unfold dvalues, dkeys. induction 1 as [|[k e] D Hp _ IH]; cbn; [reflexivity|].
-  unfold key_ok in Hp. cbn in Hp. destruct k as [s|c n|i]; destruct Hp as [H1 H2]; cbn.
+  unfold key_ok in Hp. cbn in Hp. destruct k as [s|c n|i|s]; destruct Hp as [H1 H2]; cbn.
   - rewrite H1. cbn. rewrite IH, H2. reflexivity.
-  - unfold keyed. rewrite H1. cbn. exact IH.
-  - unfold keyed. rewrite H1. rewrite andb_false_r. exact IH.
+  - rewrite (not_keyed e) by auto. exact IH.
+  - rewrite (not_keyed e) by auto. exact IH.
+  - rewrite (not_keyed e) by auto. exact IH.
 Qed.
 
 (* ---- single version ----------------------------------------------------------------------------- *)
